@@ -20,9 +20,10 @@ def conv(st):
     return {'act': a, 'files': [list(f) for f in st['files']], 'now': st['now']}
 
 
-def run_cfg(c, cfg, mustkeep, removeold, n, depth):
-    r = vlib.tlc_must_pass('Cleaner', cfg, workers=16 if c.tier == 'thorough' else 8, timeout=3000)
-    c.add_tlc(cfg, r)
+def run_cfg(c, cfg, mustkeep, removeold, n, depth, exhaustive=True, only_class=None):
+    if exhaustive:
+        r = vlib.tlc_must_pass('Cleaner', cfg, workers=16 if c.tier == 'thorough' else 8, timeout=3000)
+        c.add_tlc(cfg, r)
     rs = vlib.tlc('Cleaner', cfg, workers=4, timeout=600, simulate={'num': max(1, n // 4), 'depth': depth, 'file': True, 'seed': vlib.seed()})
     behs, seen = [], set()
     for b in vlib.sim_behaviours(rs):
@@ -37,6 +38,10 @@ def run_cfg(c, cfg, mustkeep, removeold, n, depth):
     p = os.path.join(d, 'in.json')
     json.dump({'mustKeep': mustkeep, 'removeOld': removeold, 'behaviours': behs}, open(p, 'w'))
     res = vlib.run_harness(['cleaner', p])
+    if only_class:
+        res['mismatches'] = [m for m in res['mismatches'] if (m.get('sig') or {}).get('class') == only_class]
+        for m in res['mismatches']:
+            m['sig']['prop'] = c.pid
     vlib.absorb(c, res)
 
 
